@@ -5,6 +5,9 @@ ROOT = os.path.dirname(os.path.dirname(os.path.abspath(__file__)))
 
 # id -> (level, technique, level text, level note, design ref)
 CHECKS = {
+ "C17": ("exploration", "replay of the bootstrap chain stage by stage + differential monitor across front ends regenerated under each option combination + differential monitor across the shipped grammars' parsers, plus the shipped tests",
+         "The six bootstrap generations are executed on a scratch copy and the result compared byte for byte with the checked-in peg.peg.go; front ends regenerated from peg.peg under four option sets are compiled into drivers and must agree with the checked-in one (accept/reject, tree, code, diagnostics) on thousands of valid, mutated and random grammar texts; shipped grammars generate under -strict, their four parsers agree on samples and mutations, and their own tests pass against fresh parsers.",
+         "Held on the texts/inputs produced; -noast front ends are out of scope (assumption recorded).", "5/C17"),
  "C13": ("exploration", "crash/bounds monitor in child processes: hostile byte strings through generated parsers (reference model + in-parser bounds assertions) and through the shipped grammars generated at check time (tree rebuilt from tokens by slicing the rune sequence)",
          "Empty, NUL, every class of invalid UTF-8, non-BMP, U+10FFFF, very long and deeply (<=200) nested buffers are parsed in child processes whose death is attributed through a pre-call log; no panic, offsets within the rune sequence, laminar post-order tokens, verdict/tokens equal to the reference (generated grammars) or printed tree equal to the tree rebuilt from tokens (peg, calculator, C, Java, fexl, long grammars); thorough tier builds with -race/checkptr.",
          "Held on the inputs produced; nesting depth bounded at 200; Go is memory safe, so an out-of-range access shows as a panic.", "5/C13"),
